@@ -76,8 +76,34 @@ class InjectedKey(KeyError):
         self.field = field
 
 
-_KINDS = {'plain': None, 'stop': InjectedStop, 'key': InjectedKey}
-INJECTED = (InjectedStop, InjectedKey)
+class InjectedIndex(IndexError):
+    def __init__(self, rid, field):
+        IndexError.__init__(self, 'injected IndexError at row %r field %r'
+                            % (rid, field))
+        self.rid = rid
+        self.field = field
+
+
+class InjectedType(TypeError):
+    def __init__(self, rid, field):
+        TypeError.__init__(self, 'injected TypeError at row %r field %r'
+                           % (rid, field))
+        self.rid = rid
+        self.field = field
+
+
+class InjectedAttr(AttributeError):
+    def __init__(self, rid, field):
+        AttributeError.__init__(self, 'injected AttributeError at row %r '
+                                'field %r' % (rid, field))
+        self.rid = rid
+        self.field = field
+
+
+_KINDS = {'plain': None, 'stop': InjectedStop, 'key': InjectedKey,
+          'index': InjectedIndex, 'type': InjectedType, 'attr': InjectedAttr}
+INJECTED = (InjectedStop, InjectedKey, InjectedIndex, InjectedType,
+            InjectedAttr)
 
 
 class Faults(object):
@@ -164,7 +190,8 @@ def gen_case(rng, tier, g):
     return {'prop': PROP, 'form': form, 'n': n, 'errorvalue': ev,
             'where': where, 'consumers': rng.choice([1, 1, 2]),
             'j': [rng.randint(0, 2) for _ in range(3)],
-            'exc_kind': rng.choice(['plain', 'plain', 'stop', 'key']),
+            'exc_kind': rng.choice(['plain', 'plain', 'stop', 'key', 'index',
+                                    'type', 'attr']),
             'lazy': rng.random() < 0.5,
             'extra_col': rng.random() < 0.5 and form != 'convertnumbers'}
 
